@@ -396,8 +396,9 @@ impl VM {
                 }
                 OpCode::Call => {
                     let num_args = self.read_u8();
-                    // base pointers are 16 bits wide: refuse to grow the stack beyond what they can address
-                    if self.stack.len() > u16::MAX as usize {
+                    // base pointers are 16 bits wide: refuse to grow the stack beyond what they can address,
+                    // and to nest calls deeper than that (a call without arguments or locals does not grow the stack)
+                    if self.stack.len() > u16::MAX as usize || self.frames.len() > u16::MAX as usize {
                         return Err(Error::TypeError(
                             "stapel overloop: te veel waarden of te diepe recursie".to_string(),
                         ));
